@@ -809,3 +809,68 @@ Qed.
 
 End Sat.
 Unset Default Proof Using.
+
+(* ------------------------------------------------------------------------ *)
+(* What already exists at output_file                                          *)
+(* ------------------------------------------------------------------------ *)
+Lemma final_byte_spec c sched app pre : dom c -> 0 <= pre ->
+  c_offset c = snd (start_state app pre) -> Permutation sched (all_ops c) ->
+  forall b, final_byte c (fst (start_state app pre)) sched b =
+    match expected c b with
+    | Some x => Some (New x)
+    | None => if (0 <=? b) && (b <? fst (start_state app pre)) then Some (Old b) else None
+    end.
+Proof.
+  intros D Hpre Hoff Hp b. unfold final_byte. rewrite (schedule_independent c D sched Hp b). reflexivity.
+Qed.
+
+Lemma fresh_run_extent c sched pre : dom c -> 0 <= pre ->
+  c_offset c = snd (start_state false pre) -> Permutation sched (all_ops c) ->
+  (forall b, final_byte c (fst (start_state false pre)) sched b = option_map New (expected c b)) /\
+  (forall b, final_byte c (fst (start_state false pre)) sched b <> None <->
+             0 <= b < (c_ns c + c_ns2add c) * rowbytes c) /\
+  final_length c (fst (start_state false pre)) = (c_ns c + c_ns2add c) * rowbytes c.
+Proof.
+  intros D Hpre Hoff Hp. cbn [start_state fst snd] in *.
+  assert (Hb : forall b, final_byte c 0 sched b = option_map New (expected c b)).
+  { intros b. pose proof (final_byte_spec c sched false pre D Hpre Hoff Hp b) as Hs.
+    cbn [start_state fst] in Hs. rewrite Hs.
+    destruct (expected c b); [reflexivity|]. cbn [option_map].
+    destruct ((0 <=? b) && (b <? 0)) eqn:E; [|reflexivity].
+    apply andb_true_iff in E. rewrite Z.leb_le, Z.ltb_lt in E. lia. }
+  split; [exact Hb|]. split.
+  - intros b. rewrite Hb. pose proof (expected_extent c D b) as He. rewrite Hoff in He.
+    destruct (expected c b); cbn [option_map]; split; intros H; try congruence.
+    + apply He. congruence.
+    + exfalso. assert (H' : @None cell <> None) by (apply He; lia). congruence.
+  - unfold final_length. rewrite Hoff. pose proof (rowbytes_pos c D). pose proof D as D'. unfold dom in D'. nia.
+Qed.
+
+Lemma append_run_extent c sched pre : dom c -> 0 <= pre ->
+  c_offset c = snd (start_state true pre) -> Permutation sched (all_ops c) ->
+  (forall b, 0 <= b < pre -> final_byte c (fst (start_state true pre)) sched b = Some (Old b)) /\
+  (forall b, final_byte c (fst (start_state true pre)) sched b <> None <->
+             0 <= b < pre + (c_ns c + c_ns2add c) * rowbytes c) /\
+  final_length c (fst (start_state true pre)) = pre + (c_ns c + c_ns2add c) * rowbytes c.
+Proof.
+  intros D Hpre Hoff Hp. cbn [start_state fst snd] in *.
+  pose proof (rowbytes_pos c D) as Hr. pose proof D as D'. unfold dom in D'.
+  assert (Hext : 0 <= (c_ns c + c_ns2add c) * rowbytes c) by nia.
+  split; [|split].
+  - intros b Hb. pose proof (final_byte_spec c sched true pre D Hpre Hoff Hp b) as Hs.
+    cbn [start_state fst] in Hs. rewrite Hs.
+    destruct (expected c b) eqn:E.
+    + exfalso. assert (H : expected c b <> None) by congruence. apply (expected_extent c D) in H. lia.
+    + replace ((0 <=? b) && (b <? pre)) with true; [reflexivity|].
+      symmetry. apply andb_true_iff. rewrite Z.leb_le, Z.ltb_lt. lia.
+  - intros b. pose proof (final_byte_spec c sched true pre D Hpre Hoff Hp b) as Hs.
+    cbn [start_state fst] in Hs. rewrite Hs.
+    pose proof (expected_extent c D b) as He. rewrite Hoff in He.
+    destruct (expected c b).
+    + split; [intros _|congruence]. assert (H : Some c0 <> None) by congruence. apply He in H. lia.
+    + destruct ((0 <=? b) && (b <? pre)) eqn:E.
+      * apply andb_true_iff in E. rewrite Z.leb_le, Z.ltb_lt in E. split; [intros _; lia|congruence].
+      * apply andb_false_iff in E. rewrite Z.leb_gt, Z.ltb_ge in E. split; [congruence|].
+        intros Hb. exfalso. assert (H : @None cell <> None) by (apply He; lia). congruence.
+  - unfold final_length. rewrite Hoff. lia.
+Qed.
